@@ -191,6 +191,11 @@ def oracle(case, obs):
                 if c > 0:
                     g.ref, uniq = DI.reference_update(g.ref, float.fromhex(v), c, g.cap, mode)
                     g.ref_unique = g.ref_unique and uniq
+        elif k == "copy":
+            before = prev_state.get(op[1])
+            if before is not None and before != ob["state"]:
+                diff = [f for f in ("bins", "min", "max", "cap", "cache") if before.get(f) != ob["state"].get(f)]
+                return f"{where}: a {op[2]} of the histogram differs from the original in {diff} (capacity {before['cap']} -> {ob['state']['cap']})"
         elif k == "load":
             g = ghosts[op[1]]
             before = prev_state.get(op[1])
@@ -392,6 +397,11 @@ def _program(rng, mode, tier):
         prog += _updates(rng, 0, rng.randint(1, big // 2), prof, mode)
         prog += [["load", 0]]
         prog += _updates(rng, 0, rng.randint(0, 12), prof, mode)
+    if mode == "f" and rng.random() < 0.25 and len(prog) > 3:
+        # the histogram object is copied / pickled part-way through and the history goes on with the copy
+        at = rng.randint(2, len(prog) - 1)
+        tgt = prog[at - 1][1] if prog[at - 1][0] in ("upd", "bulk", "merge", "add", "load") else 0
+        prog = prog[:at] + [["copy", tgt, rng.choice(["deepcopy", "pickle", "copy"])]] + prog[at:]
     return {"mode": mode, "prog": prog}
 
 
@@ -401,6 +411,10 @@ def corpus():
     for kind in ("merge", "add"):
         yield {"mode": "f", "prog": [["new", 0, 3], ["new", 1, 8]] + [["upd", 1, h(v), 1] for v in (1, 9, 4, 30, 16, 2, 50, 25)] +
                [[kind, 0, 1], ["upd", 0, h(9), 2], ["upd", 0, h(17), 1]]}
+    # a histogram with a small bin limit is deep-copied / pickled and the history continues on the copy
+    for how in ("deepcopy", "pickle"):
+        yield {"mode": "f", "prog": [["new", 0, 4]] + [["upd", 0, h(v), 1] for v in (1, 9, 4, 30, 16)] + [["copy", 0, how]] +
+               [["upd", 0, h(v), 1] for v in (2, 50, 25, 7, 60, 3)]}
     # a second bulk load of a narrow-dtype array into a full histogram (in-place merges with counts from numpy)
     yield {"mode": "f", "prog": [["new", 0, 3], ["bulk", 0, [h(v) for v in (10, 60, 120)], "int8"], ["bulk", 0, [h(v) for v in (61, 61, 61, 119, 11)], "int8"]]}
     # F-C13-1: bulkload above threshold (midpoint precedence) - arange(100) on a small histogram
